@@ -167,7 +167,9 @@ def run_power(c):
             if f:
                 return ck.result() + [f]
         ck.check(C.peq_all(p.array, r.array, 2, 1e-7), site + ":k-fold-composition")
-    if k < 0:
+    if k < 0 and all(np.linalg.cond(np.linalg.matrix_power(a, -k)) < 1e8 for a in arrs):
+        # (inverting a high power is only meaningful while the power is well conditioned: M^8 of an integer matrix with
+        # determinant 1 and entries of 1e5 is numerically singular for any LU based inverse)
         q, f = call(site, lambda: (t ** (-k)).inverse())
         if f:
             ck.add(f)
